@@ -7,10 +7,11 @@ open GitSizer GitSizer.Spec
 /-- `opts`: two command lines / configurations that must be equivalent, or a first one that must fail -/
 def optsEngine : Engine := fun inp obs =>
   match inp, obs with
-  | [_, _, _, _, expect], [ca, ha, la, ea, cb, hb, _lb, _eb] =>
+  | [_, _, _, _, expect], [ca, ha, la, ea, cb, hb, _lb, _eb, pa, pb] =>
     if expect == "equal" then
       if ca != "0" || cb != "0" then .viol "C14" s!"equivalent invocations must both succeed: exit {ca} / {cb}"
       else if ha != hb then .viol "C14" "equivalent option spellings / gitconfig settings produced different stdout"
+      else if pa != pb then .viol "C14" s!"equivalent progress settings: progress lines written {pa} / {pb}"
       else .ok
     else
       if ca == "0" then .viol "C14,C10" "an invalid option value or gitconfig setting in effect did not make the run fail"
